@@ -468,9 +468,10 @@ def check_maze(ms, cl, toknames, policy, res, space):
             tokens = judge_roundtrip(ms, m, tname, tok, ex, res, space)
             if tokens is not None:
                 outs[tuple(ex.answers)] = tokens
-                if space:
+                if space and (not res.samples or (len(res.samples) == 1 and ms["kind"] == "S" and len(ms["sol"]) > 1
+                                                  and (policy == "id" or any(ex.answers)))):
                     res.sample(dict(space=space, maze=describe(ms), tokenizer=tname, answers=ex.answers,
-                                    tokens=" ".join(tokens)[:300]), cap=1)
+                                    tokens=" ".join(tokens)[-300:]), cap=2)
 
         k = run_policy(lambda m=m, tok=tok: m.as_tokens(tok), policy, n_edges, cb)
         res.count("as_tokens_executions", k)
